@@ -25,4 +25,27 @@ def ck(k):
     return KeyOverrideResult(rt.produce("ck", k), "ov/k%d" % k)
 
 
-FUNCS = {"cv": cv, "cv2": cv2, "cc": cc, "ck": ck}
+@m.memento_function(cluster="c", version="1")
+def cp(p, k):
+    return rt.produce("cp", k)
+
+
+class _Presented:
+    """the call cp(7, k) presented in different, equivalent ways (one memo key)"""
+
+    def __init__(self, how):
+        self.how = how
+
+    def __call__(self, k):
+        if self.how == "partial":
+            return cp.partial(7)(k)
+        if self.how == "kw":
+            return cp(k=k, p=7)
+        return cp(7, k)
+
+    def memento(self, k):
+        return cp.memento(7, k)
+
+
+FUNCS = {"cv": cv, "cv2": cv2, "cc": cc, "ck": ck, "cp": _Presented("plain"), "cp.partial": _Presented("partial"),
+         "cp.kw": _Presented("kw")}
